@@ -120,6 +120,79 @@ inline Bytes file_bytes(const Bytes & stream, size_t cont, int level, bool resto
     return f;
 }
 
+template<class T> inline T getv(const Bytes & b, size_t off) { T v = T(); if (off + sizeof(T) <= b.size()) memcpy(&v, &b[off], sizeof(T)); return v; }
+
+/* Semantic verification of a finished file against what the property demands (not against one particular byte image):
+ * header, only well-formed log containers, method / zlib level class as configured, inflate to the declared size, no
+ * container above the configured size, objectSize % 4 zero bytes after each container, concatenated payload == stream,
+ * exact statistics, caller-supplied header fields verbatim.  Returns "" or the first problem. */
+inline std::string verify(const Bytes & f, const Bytes & stream, size_t cont, int level, bool restorePoints, uint32_t objectCount, const Header & caller) {
+    auto S = [](size_t v) { return std::to_string(v); };
+    if (f.size() < 144) return "file shorter than the 144-byte header";
+    if (getv<uint32_t>(f, 0) != 0x47474F4C) return "bad file signature";
+    if (getv<uint32_t>(f, 4) != 144) return "statisticsSize " + S(getv<uint32_t>(f, 4));
+    size_t pos = 144, last_off = 0, ncont = 0;
+    uint64_t unc = 144;
+    Bytes got;
+    while (pos < f.size()) {
+        std::string at = "container " + S(ncont) + " at offset " + S(pos) + ": ";
+        if (pos + 32 > f.size()) return at + "truncated header";
+        if (getv<uint32_t>(f, pos) != 0x4A424F4C) return at + "no object signature";
+        if (getv<uint16_t>(f, pos + 4) != 16 || getv<uint16_t>(f, pos + 6) != 1) return at + "header size / version not 16 / 1";
+        uint32_t osz = getv<uint32_t>(f, pos + 8);
+        if (getv<uint32_t>(f, pos + 12) != 10) return at + "object type " + S(getv<uint32_t>(f, pos + 12)) + " is not a log container";
+        if (osz < 32 || pos + osz > f.size()) return at + "object size " + S(osz) + " does not fit";
+        uint16_t method = getv<uint16_t>(f, pos + 16);
+        uint32_t usz = getv<uint32_t>(f, pos + 24);
+        if (getv<uint16_t>(f, pos + 18) || getv<uint32_t>(f, pos + 20) || getv<uint32_t>(f, pos + 28)) return at + "reserved header fields not zero";
+        if (usz > cont) return at + "holds " + S(usz) + " bytes, configured container size " + S(cont);
+        const uint8_t * pay = f.data() + pos + 32;
+        size_t plen = osz - 32;
+        if (level == 0) {
+            if (method != 0) return at + "method " + S(method) + " at level 0";
+            if (plen != usz) return at + "stored payload " + S(plen) + " != declared uncompressed size " + S(usz);
+            got.insert(got.end(), pay, pay + plen);
+        } else {
+            if (method != 2) return at + "method " + S(method) + " at level " + S(level);
+            if (plen < 2 || (pay[0] & 0x0f) != 8 || ((pay[0] << 8) | pay[1]) % 31 != 0) return at + "invalid zlib header";
+            int cls = pay[1] >> 6, want = level == 1 ? 0 : level <= 5 ? 1 : level == 6 ? 2 : 3;
+            if (cls != want) return at + "zlib level class " + S(cls) + " does not match level " + S(level);
+            Bytes out(usz ? usz : 1);
+            uLong n = usz;
+            int rc = uncompress(out.data(), &n, pay, (uLong)plen);
+            if (rc != Z_OK || n != usz) return at + "does not inflate to the declared size";
+            got.insert(got.end(), out.begin(), out.begin() + usz);
+        }
+        size_t pad = osz % 4;
+        if (pos + osz + pad > f.size()) return at + "padding missing";
+        for (size_t i = 0; i < pad; i++) if (f[pos + osz + i]) return at + "padding not zero";
+        unc += 32 + usz;
+        last_off = pos;
+        ncont++;
+        pos += osz + pad;
+    }
+    if (got != stream) {
+        size_t d = 0;
+        while (d < got.size() && d < stream.size() && got[d] == stream[d]) d++;
+        return "concatenated payload differs from the objects' encodings at offset " + S(d) + " (" + S(got.size()) + " vs " + S(stream.size()) + " bytes)";
+    }
+    if (getv<uint64_t>(f, 16) != f.size()) return "header fileSize " + S(getv<uint64_t>(f, 16)) + ", size on disk " + S(f.size());
+    if (getv<uint64_t>(f, 24) != unc) return "header uncompressedFileSize " + S(getv<uint64_t>(f, 24)) + ", recomputed " + S(unc);
+    if (getv<uint32_t>(f, 32) != objectCount) return "header objectCount " + S(getv<uint32_t>(f, 32)) + ", objects written " + S(objectCount);
+    if (restorePoints) {
+        if (ncont == 0 || getv<uint64_t>(f, 72) != last_off) return "restorePointsOffset " + S(getv<uint64_t>(f, 72)) + " does not designate the trailing container";
+    } else if (getv<uint64_t>(f, 72) != caller.restorePointsOffset) return "restorePointsOffset changed although the trailer is disabled";
+    Header h = caller;
+    h.fileSize = getv<uint64_t>(f, 16);
+    h.uncompressedFileSize = getv<uint64_t>(f, 24);
+    h.objectCount = getv<uint32_t>(f, 32);
+    h.restorePointsOffset = getv<uint64_t>(f, 72);
+    Bytes hb = header_bytes(h);
+    for (size_t i = 0; i < 144; i++)
+        if (hb[i] != f[i]) return "caller-supplied header field at offset " + S(i) + " not stored verbatim";
+    return "";
+}
+
 inline bool save(const std::string & path, const Bytes & b) {
     std::ofstream o(path, std::ios::binary | std::ios::trunc);
     o.write((const char *)b.data(), (std::streamsize)b.size());
